@@ -45,7 +45,7 @@ class Ctx:
             return False
         return True
 
-    def need_fn(self, crate, name, expand=False):
+    def need_fn(self, crate, name, expand=False, keep=()):
         try:
             f = self.prog.fn(crate, name)
         except KeyError as e:
@@ -55,7 +55,7 @@ class Ctx:
         if expand:
             # private single-call-site helpers (a function split into phases) are read as part of their only caller
             from .inline import expand as _expand
-            g = _expand(self.prog, f)
+            g = _expand(self.prog, f, keep=keep)
             for h in getattr(g, "inlined", []):
                 self.analysed_fns.add(h)
             return g
@@ -115,6 +115,8 @@ def run(pid, check_fn, level, explanation, trusted_base=(), crates=("profirust",
                 continue
             prog = Program({c: facts.load(c, cfg) for c in cr})
             ctx = Ctx(pid, tier, cfg, prog)
+            for c_, names_ in prog.folded.items():
+                ctx.notes.append("normalisation (%s, %s): new private helper(s) read as part of their callers: %s" % (cfg, c_, ", ".join(names_)))
             check_fn(ctx)
         except SystemExit:
             raise
